@@ -72,3 +72,22 @@ func Round(x float64) float64 {
 
 // BoolOfNumber: true iff neither zero nor NaN.
 func BoolOfNumber(x float64) bool { return nd.And(x == x, x != 0) }
+
+// NumberToString is XPath string() of a number (section 4.2): NaN, Infinity,
+// -Infinity, "0" for both zeros, otherwise decimal notation without exponent.
+// Digits come from strconv (trusted; the engine models it on a stated domain).
+func NumberToString(x float64) string {
+	if x != x {
+		return "NaN"
+	}
+	if math.IsInf(x, 1) {
+		return "Infinity"
+	}
+	if math.IsInf(x, -1) {
+		return "-Infinity"
+	}
+	if x == 0 {
+		return "0"
+	}
+	return strconv.FormatFloat(x, 'f', -1, 64)
+}
